@@ -382,7 +382,13 @@ fn check_serialisation_order(w: &World, root: Lid, stats: &mut Stats) -> Result<
             .filter(|(n, _)| n != "xmlns" && !n.starts_with("xmlns:"))
             .map(|(n, val)| (n.rsplit(':').next().unwrap().to_string(), val.clone()))
             .collect();
-        let exp_decl: Vec<(String, String)> = mm.ns.iter().filter(|(_, u, _)| u != "http://www.w3.org/XML/1998/namespace").map(|(p, u, _)| (p.clone(), u.clone())).collect();
+        // (only the built-in declaration of the xml prefix is not written)
+        let exp_decl: Vec<(String, String)> = mm
+            .ns
+            .iter()
+            .filter(|(p, u, _)| !(p == "xml" && u == "http://www.w3.org/XML/1998/namespace"))
+            .map(|(p, u, _)| (p.clone(), u.clone()))
+            .collect();
         let exp_attr: Vec<(String, String)> = mm.attrs.iter().map(|(n, val, _)| (n.local.clone(), val.clone())).collect();
         // values containing characters the serialiser normalises are not compared here (C01's subject)
         let plain = |s: &str| !s.contains(['\n', '\r', '\t']);
